@@ -17,6 +17,7 @@ import sys
 import numpy as np
 
 from harness import alpha, core, gamma, lattice, shims, tlc, util
+from harness import spell
 
 INV = ["IntegralRefines", "ExactlyOnce", "SpecTiles", "Emit"]
 FIELDS = ["density", "ones", "volFrac", "temp"]
@@ -79,6 +80,7 @@ def run_scenario(chk, sc, cfgseed, how, field, axes, scale, ext=6, ext_cut=False
     src = os.path.join(d, "plt")
     gamma.write_plotfile(src, ap, cfg_, values=flds.values)
     before = alpha.tree_digest(src)
+    src_typed = spell.of(src, cfgseed)[0]
     # expected: sum over exactly the cells the requirement counts
     total, mag = 0.0, 0.0
     for l, (c1, c2) in sc["expect"]:
@@ -95,7 +97,7 @@ def run_scenario(chk, sc, cfgseed, how, field, axes, scale, ext=6, ext_cut=False
         with shims.pool_shim(shims.Scheduler(default="random", rng=rng)):
             if how == "api-call-limit":
                 with core.quiet():
-                    pck = PlotfileCooker(src, ghost=True)
+                    pck = PlotfileCooker(src_typed, ghost=True)
                     nlev = len(sc["mesh"])
                     if cfgseed % 2 == 0 and nlev > 1:
                         # a HISTORY on one reader: an earlier integral with another level limit (and the other volume-fraction
@@ -104,9 +106,9 @@ def run_scenario(chk, sc, cfgseed, how, field, axes, scale, ext=6, ext_cut=False
                     got = volume_integral(pck, field, limit_level=lim, use_volfrac=vf)
             elif how == "api-reader-limit":
                 with core.quiet():
-                    got = volume_integral(PlotfileCooker(src, limit_level=lim, ghost=True), field, use_volfrac=vf)
+                    got = volume_integral(PlotfileCooker(src_typed, limit_level=lim, ghost=True), field, use_volfrac=vf)
             else:
-                txt = run_cli(["-v", field, "-l", str(lim)] + (["-vf"] if vf else []) + [src])
+                txt = run_cli(["-v", field, "-l", str(lim)] + (["-vf"] if vf else []) + [src_typed])
                 m = re.search(r"Volume integral of .* in plotfile: (\S+)", txt)
                 if not m:
                     return "the command line tool printed no integral: %r" % txt[-200:]
@@ -125,6 +127,14 @@ def run_scenario(chk, sc, cfgseed, how, field, axes, scale, ext=6, ext_cut=False
 
 
 def run(chk, replay):
+    _run(chk, replay)
+    if not replay:
+        # the working directory changes between runs on plotfiles typed under a relative name (PoolEnv.tla)
+        from harness import poolenv
+        poolenv.tool_phase(chk, "pestle")
+
+
+def _run(chk, replay):
     chk.rule = ("scenarios of Pestle.tla emitted by TLC (block-lattice mesh with 4- and 6-cell boxes x limit x volfrac), replayed "
                 "through the API (limit on the call / on the reader) and the CLI, for a random field, the constant 1 field and "
                 "temp, blocking factor 2/4/8, all axis assignments; signature = (levels, limit, volfrac, extents present, "
